@@ -24,6 +24,10 @@ A stream is the list of its NAL units in stream order (the chunked reader below 
 What the Dolby Vision library contributes (re-encoding one RPU NAL under `-m` / `--crop` / `--edit-config`)
 is the parameter `conv : Bytes → Option Bytes` (`none` = the library refuses).
 
+Not modelled (never reached by the checks' inputs): Matroska input, `--limit`, the lookups of a frame by its
+decode number that the tool performs for the AUD / RPU of a frame buffer (assumed to succeed: every label is the
+number of a parsed frame), progress output.
+
 A result `none` always means: the command ends with an error status (a `bail!`, a propagated `Err`, or a
 panic) — whatever was written before is not described.
 -/
